@@ -115,8 +115,42 @@ fn vary_env(r: &mut Rng, base: &Scenario) -> (Scenario, Vec<String>) {
     (s, kinds)
 }
 
+/// enumerated prefix: every AH value under both console interrupts, as a tiny program executed in
+/// several environments (and, by the real binary, in two process environments at two moments): a
+/// service must not bring the clock, the process or the environment into the machine
+pub const SERVICE_ENUM: u64 = 512;
+
+fn make_service_case(seed: u64, run: u64) -> Option<Case> {
+    let mut r = Rng::new(run_seed(seed, "C19", 1_000_000 + run));
+    let ah = run % 256;
+    let int = if run < 256 { "0x10" } else { "0x21" };
+    let src = format!(
+        "buf: db [12]\nstart:\nmov byte buf, 6\nmov dx, offset buf\nmov bp, 2\nmov cx, 3\nmov al, 0x41\nmov ah, {}\nint {}\nprint reg\nprint mem : 11\n",
+        ah, int
+    );
+    let mut scn = Scenario::new(src.as_bytes());
+    scn.stdin.bytes = Bytes(b"hello world\nsecond\n".to_vec());
+    scn.fuel = 200;
+    let mut case = Case::new("C19", "env", seed, run, scn);
+    let mut kinds_all = Vec::new();
+    for _ in 0..2 {
+        let (s, kinds) = vary_env(&mut r, &case.scn);
+        kinds_all.extend(kinds);
+        case.alts.push(AltRun { role: "env".to_owned(), scn: s, gen: None });
+    }
+    kinds_all.sort();
+    kinds_all.dedup();
+    case.faults = kinds_all;
+    case.config = "enumerated_service_numbers".to_owned();
+    Some(case)
+}
+
 pub fn make_case(seed: u64, run: u64, stats: &mut Stats) -> Option<Case> {
-    let rs = run_seed(seed, "C19", run);
+    if run < SERVICE_ENUM {
+        return make_service_case(seed, run);
+    }
+    // (the seeded part keeps the random streams it had before the enumerated prefix existed)
+    let rs = run_seed(seed, "C19", run - SERVICE_ENUM);
     let mut r = Rng::new(rs);
     match run % 5 {
         0 | 1 => make_env_case(&mut r, seed, run, stats),
@@ -365,6 +399,13 @@ fn poison_sources() -> Vec<String> {
         "macro r_a() -> r_b() <-\nmacro r_b() -> r_a() <-\nstart:\nr_a()".to_owned(),
         "set 0x200\nd_0: db [65535]\nd_2: db [65535]\nstart:\nhlt".to_owned(),
         "start:\njmp nowhere_1\njmp nowhere_2\nL_2:\nL_2:".to_owned(),
+        // an expansion that fails after it has met a forward jump, and the same shapes succeeding
+        "macro f_0(x) -> jmp fwd_x mov ax,, 1 <-\nstart:\nf_0(1)\nfwd_x:\nhlt".to_owned(),
+        "macro f_1(x) -> jne fwd_y f_2(x) <-\nmacro f_2(y) -> jmp fwd_z add bx,, y <-\nstart:\nf_1(1)\n".to_owned(),
+        "macro g_0(x) -> jmp fwd_g add bx, x <-\nstart:\ng_0(2)\nfwd_g:\nhlt".to_owned(),
+        "macro g_1() -> inc ax <-\nmacro g_2() -> g_1() g_1() <-\nstart:\ng_2()\njmp done\ng_1()\ndone:\nhlt".to_owned(),
+        "def p_2 { jmp inner\ninner: ret }\nstart:\ncall p_2\ncall p_2x".to_owned(),
+        "d_3: db \"abc\"\nd_4: dw [3]\nstart:\nmov ax, word d_4\nprint mem : 4\nmov ax, word d_5".to_owned(),
     ];
     // a chain one level deeper than the assembler accepts
     let mut t = String::from("macro c_0() -> inc ax <-\n");
